@@ -1442,6 +1442,16 @@ def _chain_order_generic(ctx: Check, tree: Tree, fn: FuncInfo) -> None:
                     unknown.append(f"the single-rotation special case is taken under `{show_pc(pc)[:60]}`, which is no test of the number of summation indices")
                 elif not one:
                     problems.append(f"the single-rotation special case is taken under `{show_pc(pc)[:60]}`, not iff exactly one summation index exists")
+                # direction of the identification: the dangling summation index is REPLACED BY the helicity symbol handed in
+                hel = ("param", "helicity_symbol") if "helicity_symbol" in fn.params else None
+                args = v[2]
+                if hel is not None and v[1][2] == "subs" and len(args) == 2:
+                    if args[0] == hel and args[1] != hel:
+                        problems.append(f"the single-rotation special case substitutes the helicity symbol BY the dangling index (`{show(v)[-70:]}`): the rotation is no longer bound to the outer helicity")
+                    elif args[1] != hel:
+                        unknown.append(f"the single-rotation special case substitutes `{show(args[0])[:30]}` by `{show(args[1])[:30]}`, which is not the helicity symbol that was handed in")
+                elif hel is not None and v[1][2] == "xreplace" and len(args) == 1 and args[0][0] == "dict":
+                    pass  # a mapping: read by R-WIRING
         if problems or not unknown:
             ctx.verdict(not problems, "R-CHAINORDER", key, tree.loc(call), "axis-angle chain: recursion from the rotated state upwards (get_parent_id) until the initial state, index pair k (k = 0, 1, ...) carries the angles of the k-th state on the way up", problems or None)
         if unknown:
